@@ -136,13 +136,20 @@ def sproutEnvP : P Sprout.Env := do
     nbc := fun id => (nbcs.find? (·.1 == id)).map fun e => (lookupMat e.2.1 e.2.2.1, e.2.2.2)
     dist := fun g id => ((dists.find? fun e => e.1 == g && e.2.1 == id).map (·.2.2)).getD none }
 
+def idP : P Id := do
+  let t ← tok
+  if t == "root" then pure [] else
+    match (t.splitOn "/").mapM (·.toNat?) with
+    | some l => pure l
+    | none => failure
+
 def evP : P Ev := do
   let t ← tok
   match t with
   | "loop" => do let g ← optBoolP; pure (.loop g)
-  | "gen" => do let id ← tok; let g ← genEnvP; let l ← optBoolP; pure (.gen id g l)
+  | "gen" => do let id ← idP; let g ← genEnvP; let l ← optBoolP; pure (.gen id g l)
   | "local" => do
-    let id ← tok; let r ← list reqP; let it ← list indP; let n ← nat
+    let id ← idP; let r ← list reqP; let it ← list indP; let n ← nat
     pure (.localRun id r it n)
   | "round" => do
     let g ← optBoolP; let e ← sproutEnvP; let news ← list newEnvP
@@ -152,24 +159,30 @@ def evP : P Ev := do
 -- ---------------------------------------------------------------- canonical dump
 def showPc : Pc → String
   | .head => "head" | .post => "post" | .done => "done"
-  | .running q cur => s!"running[{",".intercalate q}]" ++ match cur with
-    | some (id, n, _) => s!"@{id}:{n}"
+  | .running q cur => s!"running[{",".intercalate (q.map showId)}]" ++ match cur with
+    | some (id, n, _) => s!"@{showId id}:{n}"
     | none => ""
 
 def showOptInd : Option Ind → String
   | none => "-"
   | some i => showInd i
 
-def dumpDeme (mx : Bool) (full : Bool) (d : Deme) : String :=
-  let head := s!"D {d.id} {d.level} {d.parent.getD "-"} {d.startedAt} {showBool d.active} {showBool d.hib} {d.counter} [{",".intercalate d.children}] seed {showOptInd d.seed} me {d.metaepochs} gens {d.gens.length} best {showOptInd (Select.best mx d.allInds)}"
+def showEngine : Engine → String
+  | .ea => "ea" | .de => "de" | .shade => "shade" | .cma => "cma" | .localOpt => "local"
+  | .lhs => "lhs" | .sobol => "sobol"
+
+def dumpDeme (cfg : Cfg) (full : Bool) (d : Deme) : String :=
+  let mx := cfg.maximize
+  let cls := match cfg.levels[d.level]? with | some lc => showEngine lc.engine | none => "?"
+  let head := s!"D {showId d.id} {d.level} {(d.parent.map showId).getD "-"} {d.startedAt} {showBool d.active} {showBool d.hib} {d.counter} [{",".intercalate (d.children.map showId)}] seed {showOptInd d.seed} me {d.metaepochs} gens {d.gens.length} cls {cls} best {showOptInd (Select.best mx d.allInds)}"
   if full then
     head ++ " hist " ++ " / ".intercalate (d.hist.map fun m => " ; ".intercalate (m.map fun g => showList showInd g.inds))
   else head
 
 def dump (t : T) (full : Bool) : String :=
-  let lv := " ".intercalate (t.levels.map fun l => "[" ++ ",".intercalate l ++ "]")
+  let lv := " ".intercalate (t.levels.map fun l => "[" ++ ",".intercalate (l.map showId) ++ "]")
   let head := s!"T {t.metaepoch} evals {t.nEvals} levels {lv} best {showOptInd t.best} invocations {t.log.length}"
-  " | ".intercalate (head :: t.demes.map (dumpDeme t.cfg.maximize full))
+  " | ".intercalate (head :: t.demes.map (dumpDeme t.cfg full))
 
 def dumpStages (tr : List (List Sprout.Cand)) : String :=
   " || ".intercalate (tr.map fun cs => " ; ".intercalate (cs.map fun c =>
